@@ -8,7 +8,7 @@
     0x02 subaccount addr -> owner  -> `subMap`
     0x03 (addr, unlockTS) -> amount-> `Sub.locks`          (replace-on-equal-key list; only ever summed)
     0x04 addr -> AccountSummary    -> `Sub.sum`
-  x/bank is modelled by its contract on the accounts involved (`bank : Acct → Int`; a transfer fails on
+  x/bank is modelled by its contract on the accounts involved (`bank : Nat → Int`; a transfer fails on
   insufficient funds, `sdk.NewCoin` panics on a negative amount).
 
   MODELLING BOUNDARY.  x/bet, x/house, x/orderbook, x/ovm are *parameters*: the operations that call into
@@ -24,17 +24,17 @@
 -/
 namespace Sge.Subaccount
 
-abbrev Acct := Nat
+-- accounts (addresses) are natural-number identifiers
 
 def subBase : Nat := 1000
 /-- all custody module accounts of bet / house / orderbook, lumped -/
-def extAcct : Acct := 100
+def extAcct : Nat := 100
 /-- reward pool module account -/
-def poolAcct : Acct := 101
-def addrOf (id : Nat) : Acct := subBase + id
+def poolAcct : Nat := 101
+def addrOf (id : Nat) : Nat := subBase + id
 
 /-- function update (KV `Set`) -/
-def upd {α : Type} (f : Acct → α) (k : Acct) (v : α) : Acct → α := fun a => if a = k then v else f a
+def upd {α : Type} (f : Nat → α) (k : Nat) (v : α) : Nat → α := fun a => if a = k then v else f a
 
 /-! ## types/accsummary.go -/
 
@@ -127,10 +127,10 @@ structure State where
   nextId : Nat := 1
   wagerEnabled : Bool := true
   depositEnabled : Bool := false
-  ownerMap : Acct → Option Acct := fun _ => none
-  subMap : Acct → Option Acct := fun _ => none
-  subs : Acct → Option Sub := fun _ => none
-  bank : Acct → Int := fun _ => 0
+  ownerMap : Nat → Option Nat := fun _ => none
+  subMap : Nat → Option Nat := fun _ => none
+  subs : Nat → Option Sub := fun _ => none
+  bank : Nat → Int := fun _ => 0
   /-- ghost: no tokens reached a (present or future) subaccount address outside the module's bookkeeping -/
   clean : Bool := true
 
@@ -150,7 +150,7 @@ deriving DecidableEq, Repr
 
 /-- `SendCoins`: `none` on a negative amount (callers that can reach it treat it as the `NewCoin` panic)
     or insufficient funds -/
-def send (b : Acct → Int) (f t : Acct) (amt : Int) : Option (Acct → Int) :=
+def send (b : Nat → Int) (f t : Nat) (amt : Int) : Option (Nat → Int) :=
   if amt < 0 then none
   else if b f < amt then none
   else
@@ -160,7 +160,7 @@ def send (b : Acct → Int) (f t : Acct) (amt : Int) : Option (Acct → Int) :=
 /-! ## keeper/subaccount.go, keeper/balance.go -/
 
 /-- `CreateSubaccount` -/
-def createKeeper (s : State) (creator owner : Acct) (ls : List Lock) : State × Res :=
+def createKeeper (s : State) (creator owner : Nat) (ls : List Lock) : State × Res :=
   match sumLocked s.now ls with
   | none => (s, .err .expired)
   | some total =>
@@ -176,7 +176,7 @@ def createKeeper (s : State) (creator owner : Acct) (ls : List Lock) : State × 
                   subs := upd s.subs a (some { sum := { deposited := total }, locks := setLocks [] ls }) }, .ok)
 
 /-- `TopUp` -/
-def topUpKeeper (s : State) (creator owner : Acct) (ls : List Lock) : State × Res :=
+def topUpKeeper (s : State) (creator owner : Nat) (ls : List Lock) : State × Res :=
   match sumLocked s.now ls with
   | none => (s, .err .expired)
   | some total =>
@@ -195,7 +195,7 @@ def topUpKeeper (s : State) (creator owner : Acct) (ls : List Lock) : State × R
                                                           locks := setLocks sub.locks ls }) }, .ok)
 
 /-- `withdrawUnlocked` -/
-def withdrawUnlockedAt (s : State) (a owner : Acct) : State × Res :=
+def withdrawUnlockedAt (s : State) (a owner : Nat) : State × Res :=
   match s.subs a with
   | none => (s, .panic)
   | some sub =>
@@ -212,7 +212,7 @@ def withdrawUnlockedAt (s : State) (a owner : Acct) : State × Res :=
                                                         toOwner := sub.toOwner + w }) }, .ok)
 
 /-- `withdrawLockedAndUnlocked` -/
-def withdrawLockedAt (s : State) (a owner : Acct) (deduct : Int) : State × Res :=
+def withdrawLockedAt (s : State) (a owner : Nat) (deduct : Int) : State × Res :=
   match s.subs a with
   | none => (s, .panic)
   | some sub =>
@@ -232,15 +232,15 @@ def withdrawLockedAt (s : State) (a owner : Acct) (deduct : Int) : State × Res 
 /-! ## messages -/
 
 /-- MsgCreate (ValidateBasic is called by the handler itself) -/
-def create (s : State) (creator owner : Acct) (ls : List Lock) : State × Res :=
+def create (s : State) (creator owner : Nat) (ls : List Lock) : State × Res :=
   if !validLocks ls then (s, .err .invalid) else createKeeper s creator owner ls
 
 /-- MsgTopUp (ValidateBasic by baseapp) -/
-def topUp (s : State) (creator owner : Acct) (ls : List Lock) : State × Res :=
+def topUp (s : State) (creator owner : Nat) (ls : List Lock) : State × Res :=
   if !validLocks ls then (s, .err .invalid) else topUpKeeper s creator owner ls
 
 /-- MsgWithdrawUnlockedBalances -/
-def withdrawUnlocked (s : State) (owner : Acct) : State × Res :=
+def withdrawUnlocked (s : State) (owner : Nat) : State × Res :=
   match s.ownerMap owner with
   | none => (s, .err .nosub)
   | some a => withdrawUnlockedAt s a owner
@@ -259,7 +259,7 @@ structure WagerExt where
 deriving Repr, Inhabited
 
 /-- second half of MsgWager: `betKeeper.Wager` after the deduction; `s0` is the state before the message -/
-def wagerBet (s0 s1 : State) (owner a : Acct) (x : WagerExt) : State × Res :=
+def wagerBet (s0 s1 : State) (owner a : Nat) (x : WagerExt) : State × Res :=
   if !x.wagerOk then (s0, .err .ext) else
   match send s1.bank owner extAcct x.charged with
   | none => (s0, .err .ext)
@@ -269,7 +269,7 @@ def wagerBet (s0 s1 : State) (owner a : Acct) (x : WagerExt) : State × Res :=
     | some sub => ({ s1 with bank := bank', subs := upd s1.subs a (some { sub with staked := sub.staked + x.charged }) }, .ok)
 
 /-- MsgWager of x/subaccount -/
-def wager (s : State) (owner : Acct) (main sub : Int) (x : WagerExt) : State × Res :=
+def wager (s : State) (owner : Nat) (main sub : Int) (x : WagerExt) : State × Res :=
   if !s.wagerEnabled then (s, .err .disabled) else
   match s.ownerMap owner with
   | none => (s, .err .nosub)
@@ -294,7 +294,7 @@ structure HouseDepExt where
 deriving Repr, Inhabited
 
 /-- MsgHouseDeposit of x/subaccount -/
-def houseDeposit (s : State) (owner : Acct) (amount : Int) (x : HouseDepExt) : State × Res :=
+def houseDeposit (s : State) (owner : Nat) (amount : Int) (x : HouseDepExt) : State × Res :=
   if !s.depositEnabled then (s, .err .disabled) else
   match s.ownerMap owner with
   | none => (s, .err .nosub)
@@ -323,7 +323,7 @@ structure HouseWdExt where
 deriving Repr, Inhabited
 
 /-- MsgHouseWithdraw of x/subaccount -/
-def houseWithdraw (s : State) (owner : Acct) (x : HouseWdExt) : State × Res :=
+def houseWithdraw (s : State) (owner : Nat) (x : HouseWdExt) : State × Res :=
   match s.ownerMap owner with
   | none => (s, .err .nosub)
   | some a =>
@@ -346,7 +346,7 @@ inductive HookKind
 deriving DecidableEq, Repr
 
 /-- `AfterHouseWin(house, originalAmount, profit)` -/
-def hookWin (s : State) (house : Acct) (orig profit : Int) : State × Res :=
+def hookWin (s : State) (house : Nat) (orig profit : Int) : State × Res :=
   match s.subs house with
   | none => (s, .ok)
   | some sub =>
@@ -364,7 +364,7 @@ def hookWin (s : State) (house : Acct) (orig profit : Int) : State × Res :=
                                                               toOwner := sub.toOwner + profit }) }, .ok)
 
 /-- `AfterHouseLoss(house, originalAmount, lostAmt)` -/
-def hookLoss (s : State) (house : Acct) (orig lost : Int) : State × Res :=
+def hookLoss (s : State) (house : Nat) (orig lost : Int) : State × Res :=
   match s.subs house with
   | none => (s, .ok)
   | some sub =>
@@ -377,7 +377,7 @@ def hookLoss (s : State) (house : Acct) (orig lost : Int) : State × Res :=
 
 /-- `AfterHouseRefund(house, originalAmount)`; `AfterHouseFeeRefund(house, fee)` has the same body (and the
     order book's multi-hook dispatches the fee refund to `AfterHouseRefund` anyway) -/
-def hookRefund (s : State) (house : Acct) (orig : Int) : State × Res :=
+def hookRefund (s : State) (house : Nat) (orig : Int) : State × Res :=
   match s.subs house with
   | none => (s, .ok)
   | some sub =>
@@ -385,7 +385,7 @@ def hookRefund (s : State) (house : Acct) (orig : Int) : State × Res :=
     | none => (s, .panic)
     | some sum' => ({ s with subs := upd s.subs house (some { sub with sum := sum' }) }, .ok)
 
-def hook (s : State) (k : HookKind) (house : Acct) (x y : Int) : State × Res :=
+def hook (s : State) (k : HookKind) (house : Nat) (x y : Int) : State × Res :=
   match k with
   | .win => hookWin s house x y
   | .loss => hookLoss s house x y
@@ -394,7 +394,7 @@ def hook (s : State) (k : HookKind) (house : Acct) (x y : Int) : State × Res :=
 
 /-- one settlement step of the order book as seen from here: custody pays `refund` to the depositor `house`,
     then the hook runs. A panic discards both (and would halt the chain inside the end-blocker). -/
-def settle (s : State) (k : HookKind) (house : Acct) (refund x y : Int) : State × Res :=
+def settle (s : State) (k : HookKind) (house : Nat) (refund x y : Int) : State × Res :=
   match send s.bank extAcct house refund with
   | none => (s, .err .ext)
   | some bank1 =>
@@ -406,13 +406,16 @@ def settle (s : State) (k : HookKind) (house : Acct) (refund x y : Int) : State 
 
 /-! ## x/reward: grant with a subaccount part -/
 
-/-- `getSubaccountAddr` (create an empty subaccount for the receiver when there is none, paid by `creator`)
-    followed by `DistributeRewards` (top-up from the reward pool, one lock at `now + period`) -/
-def grant (s : State) (creator receiver : Acct) (amt : Int) (period : Nat) : State × Res :=
-  let c := match s.ownerMap receiver with
-    | some _ => (s, Res.ok)
-    | none => createKeeper s creator receiver []
-  match c with
+/-- `getSubaccountAddr`: create an empty subaccount for the receiver when there is none, paid by `creator` -/
+def grantCreate (s : State) (creator receiver : Nat) : State × Res :=
+  match s.ownerMap receiver with
+  | some _ => (s, .ok)
+  | none => createKeeper s creator receiver []
+
+/-- `getSubaccountAddr` followed by `DistributeRewards` (top-up from the reward pool, one lock at `now + period`,
+    only when the subaccount part of the reward is positive) -/
+def grant (s : State) (creator receiver : Nat) (amt : Int) (period : Nat) : State × Res :=
+  match grantCreate s creator receiver with
   | (s1, .ok) =>
     if 0 < amt then
       match topUpKeeper s1 poolAcct receiver [(s.now + period, amt)] with
@@ -424,29 +427,29 @@ def grant (s : State) (creator receiver : Acct) (amt : Int) (period : Nat) : Sta
 /-! ## environment operations -/
 
 /-- plain `MsgSend` (stands for every transfer of modules that are not modelled) -/
-def bankSend (s : State) (f t : Acct) (v : Int) : State × Res :=
+def bankSend (s : State) (f t : Nat) (v : Int) : State × Res :=
   match send s.bank f t v with
   | none => (s, .err .funds)
   | some bank' => ({ s with bank := bank', clean := s.clean && decide (t < subBase) }, .ok)
 
 /-- tokens entering the modelled accounts from outside (genesis balances, faucet) -/
-def fund (s : State) (a : Acct) (v : Int) : State × Res :=
+def fund (s : State) (a : Nat) (v : Int) : State × Res :=
   if v < 0 then (s, .err .invalid) else
   ({ s with bank := upd s.bank a (s.bank a + v), clean := s.clean && decide (a < subBase) }, .ok)
 
 inductive Op
   | advance (dt : Nat)
   | params (wager deposit : Bool)
-  | fund (a : Acct) (v : Int)
-  | send (f t : Acct) (v : Int)
-  | create (creator owner : Acct) (ls : List Lock)
-  | topUp (creator owner : Acct) (ls : List Lock)
-  | withdrawUnlocked (owner : Acct)
-  | grant (creator receiver : Acct) (amt : Int) (period : Nat)
-  | wager (owner : Acct) (main sub : Int) (x : WagerExt)
-  | houseDeposit (owner : Acct) (amount : Int) (x : HouseDepExt)
-  | houseWithdraw (owner : Acct) (x : HouseWdExt)
-  | settle (k : HookKind) (house : Acct) (refund x y : Int)
+  | fund (a : Nat) (v : Int)
+  | send (f t : Nat) (v : Int)
+  | create (creator owner : Nat) (ls : List Lock)
+  | topUp (creator owner : Nat) (ls : List Lock)
+  | withdrawUnlocked (owner : Nat)
+  | grant (creator receiver : Nat) (amt : Int) (period : Nat)
+  | wager (owner : Nat) (main sub : Int) (x : WagerExt)
+  | houseDeposit (owner : Nat) (amount : Int) (x : HouseDepExt)
+  | houseWithdraw (owner : Nat) (x : HouseWdExt)
+  | settle (k : HookKind) (house : Nat) (refund x y : Int)
 deriving Repr
 
 def step (s : State) : Op → State × Res
@@ -466,6 +469,6 @@ def step (s : State) : Op → State × Res
 def run (s : State) (ops : List Op) : State := ops.foldl (fun s op => (step s op).1) s
 
 /-- genesis of the slice: no subaccounts, arbitrary balances -/
-def init (fixed : Bool) (bank : Acct → Int) : State := { fixed := fixed, bank := bank }
+def init (fixed : Bool) (bank : Nat → Int) : State := { fixed := fixed, bank := bank }
 
 end Sge.Subaccount
